@@ -375,5 +375,7 @@ def run_scheduled(script, strategy, step_cap=20000, line_p=0.0, line_rng=None, w
                         info.setdefault("os_threads_alive", []).append(st.name)
         info["lines_seen"] = len(inst.lines_seen)
         info["line_preemptions"] = inst.preemptions
+        info["detached_threads"] = sched.detached_threads
+        info["blocked_outside"] = sched.blocked_outside[:5]
     gc.collect()
     return sched, info
